@@ -11,8 +11,12 @@ NI = (B + '._read_next_block',)
 def stores_into(I, fi):
     """item stores into the array the function returns (whatever the local is called)"""
     names = {n.value.id for n in ast.walk(fi.node) if isinstance(n, ast.Return) and isinstance(n.value, ast.Name)}
-    return [e for e in I.events if e.kind == 'store' and e.data.get('target') == 'sub' and e.owner == fi.short
-            and isinstance(e.data.get('base_node'), ast.Name) and e.data['base_node'].id in names]
+    direct = [e for e in I.events if e.kind == 'store' and e.data.get('target') == 'sub' and e.owner == fi.short
+              and isinstance(e.data.get('base_node'), ast.Name) and e.data['base_node'].id in names and e.func.short == fi.short]
+    # stores made by an extracted helper that received the array as an argument: same [channel rows, byte columns] form
+    via = [e for e in I.events if e.kind == 'store' and e.data.get('target') == 'sub' and e.owner == fi.short
+           and e.func.short != fi.short and time_index(e) is not None]
+    return direct + via
 
 
 def time_index(e):
@@ -20,7 +24,7 @@ def time_index(e):
     ka = e.data['key'].single_atom()
     if ka is None or ka.kind != 'tuple' or len(ka.args) != 2:
         return None
-    col = ka.args[1].single_atom()
+    col = T.canon(ka.args[1]).single_atom()          # (t_idx + 1)[None, :] and t_idx[None, :] + 1 alike
     if col is None or col.kind != 'sub':
         return None
     s = T.as_seq(T.subst(col.args[0], lambda a: None))
